@@ -9,6 +9,7 @@ HARNESSES = {
     'unique_seq': {'san': 'asan'},
     'bits_seq': {'san': 'asan'},
     'guard_seq': {'san': 'asan'},
+    'radix_conc': {'san': 'tsan'},
     'spin_conc': {'san': 'tsan'},
     'qs_seq': {'san': 'asan'},
     'parsers_fuzz': {'san': 'asan', 'cxxflags': ['-fno-sanitize=nonnull-attribute'], 'fuzz_raw': True},
@@ -382,6 +383,26 @@ PROPS['C12'] = {
     'level_note': 'the instrumented mutex models a correct non-recursive mutex as seen by one thread',
     'technique': 'stateful property testing of lock guards against an ownership model; schedule-controlled interleavings of the spinlocks under TSan',
     'assumptions': ['lock() is only issued when a correct mutex would not block'],
+}
+
+PROPS['C10'] = {
+    'runs': [{'harness': 'radix_conc',
+              'quick': {'enum': True, 'rc': rc(2500, sizes=[20, 60, 150], scale=2)},
+              'thorough': {'enum': True, 'rc': rc(50000, sizes=[20, 60, 150, 300], scale=2)}}],
+    'rule': 'a universe of 2-8 keys built structurally (same leaf, first difference at a chosen nibble incl. the root and the level below it), a sequential setup, then 1-2 '
+            'concurrent phases: one writer runs 1-4 insert/erase operations (an erased key is not re-inserted before the readers were joined), 1-3 readers run 1-3 find() '
+            'calls each and validate the result at once with plain reads; std::atomic inside rcu_radixtree.hpp is interposed (same memory orders), every atomic access is a '
+            'schedule point, the schedule comes from the tape; enumeration: for the three insertion cases (first leaf at the root, same leaf, split at the root and below it) '
+            'x one find, interleavings by depth-first search over the choice points (complete in the thorough tier unless the scope says otherwise). Oracle: a non-null '
+            'result holds exactly the requested key and a valid checksum (fully initialised); a key completely inserted before the find began and not being erased is found; '
+            'zero TSan reports (plain reads of prefix/depth/value racing with the writer); after the phase every present key is found at its old address. Non-trivial: a '
+            'reader made a step while the writer was inside an insert; distinct = hash of (keys, scripts) - schedules of one script count once.',
+    'required_tags': ['reader-step-during-insert', 'switches-5-19'],
+    'min_cases': {'quick': 20000, 'thorough': 400000},
+    'level_text': 'schedule-controlled interleavings (random and depth-first over small scopes) at atomic-access granularity with TSan judging the happens-before relation of the real memory orders; held on everything generated',
+    'level_note': 'interleavings are sequentially consistent; weak-memory effects are visible only as TSan data races between plain accesses; plain accesses are not pre-emption points',
+    'technique': 'schedule-controlled concurrency testing (harness-owned scheduler over interposed atomics, random + DFS schedules) with TSan and a presence oracle',
+    'assumptions': ['single writer', 'a slot is reused only after the readers were joined (grace period)'],
 }
 
 NOT_APPLICABLE = {}
